@@ -334,6 +334,20 @@ class Pkg:
                     res.append(d.name)
         return res
 
+    def skipped(self, f=None):
+        """types in the scope of a listing run (-file=f / -type=*) that it skips silently while an explicit -type=T refuses them"""
+        res = []
+        have = {d.ty for hf in self.hfiles for d in hf.decls if isinstance(d, Consts) and d.cs}
+        for hf in sorted(self.hfiles, key=lambda x: x.name.encode()):
+            if f and hf.name != f:
+                continue
+            for d in hf.decls:
+                if self.sub == "new" and isinstance(d, Struct) and d.name.startswith("_"):
+                    res.append(d.name)
+                elif self.sub == "enum" and isinstance(d, IntType) and d.name not in have:
+                    res.append(d.name)
+        return res
+
     def decl_file(self, T):
         for hf in self.hfiles:
             for d in hf.decls:
@@ -502,6 +516,9 @@ def gen_new(rng, name="p"):
         if st not in chain_structs:
             rng.choice(files).decls.append(st)
     files = [f for f in files if f.decls]
+    if rng.random() < 0.3:
+        # a struct the listing modes skip silently and an explicit -type refuses
+        rng.choice(files).decls.append(Struct("_hidden", [SField("h", "int")]))
     for f in files:
         if rng.random() < 0.3:
             f.decls.insert(rng.randint(0, len(f.decls)), Other("helper" + f.name[:1], "func helper%s() int { return 1 }\n" % f.name[:1]))
